@@ -45,7 +45,6 @@ func vfAbsDur(x time.Duration) time.Duration {
 //vf:override github.com/hashicorp/serf/coordinate.magnitude = github.com/hashicorp/serf/coordinate.vfStubMagnitude
 //vf:bound values dimension 1..2 (components irrelevant once the Euclidean part is abstracted); heights in [0,1e4] s, adjustments: every finite double; Euclidean distance: any double in [0, 1e5] shared by both directions
 //vf:stub magnitude -> shared symbolic value (justified by VfC21_LemmaSquare and the axiom a-b = -(b-a))
-//vf:nonative
 func VfC21_Distance() {
 	d := 1 + vfChoice("dim", 2)
 	a, b := vfC21Coord("a", d), vfC21Coord("b", d)
@@ -70,7 +69,6 @@ func VfC21_Distance() {
 //vf:timeout 30s
 //vf:override github.com/hashicorp/serf/coordinate.magnitude = github.com/hashicorp/serf/coordinate.vfStubMagnitude
 //vf:bound values as VfC21_Distance, adjustments in [-1e4,1e4] s
-//vf:nonative
 func VfC21_Formula() {
 	a, b := vfC21Coord("a", 1), vfC21Coord("b", 1)
 	vfAssume(vfAnd(a.Adjustment >= -1e4, a.Adjustment <= 1e4))
@@ -95,7 +93,6 @@ func VfC21_Formula() {
 // dimensionality error before anything is computed.
 //
 //vf:unwind 8
-//vf:nonative
 func VfC21_Dimension() {
 	a := &Coordinate{Vec: make([]float64, 1+vfChoice("da", 3))}
 	b := &Coordinate{Vec: make([]float64, 1+vfChoice("db", 3))}
@@ -117,7 +114,6 @@ func VfC21_Dimension() {
 // VfC21_LemmaSquare: (-x)*(-x) == x*x for every double (bit-exact unless NaN).
 //
 //vf:timeout 30s
-//vf:nonative
 func VfC21_LemmaSquare() {
 	x := vfF64("x")
 	p, q := x*x, (-x)*(-x)
